@@ -79,7 +79,7 @@ func (x *g) comment() string {
 
 func (x *g) pi() string {
 	x.feats["pi"]++
-	return "<?" + x.pick("pitarget", []string{"php", "target", "xml-stylesheet"}) + x.pick("pidata", []string{"", " a=\"b\"", " echo 1; ", "  x  y "}) + "?>"
+	return "<?" + x.pick("pitarget", []string{"php", "target", "xml-stylesheet"}) + x.pick("pidata", []string{"", " a=\"b\"", " echo 1; ", "  x  y ", " a = \"b\"", " x=\"&apos;\"", " x='&quot;'", " x=\"&#65;\"", " echo \"a  b\"; ", " a='b' c=\"d\"", " x ", " href=\"a.css\" type=\"text/css\""}) + "?>"
 }
 
 func (x *g) attrValue() string {
@@ -95,7 +95,7 @@ func (x *g) attrValue() string {
 			sb.WriteString(x.pick("avws", []string{" ", "  ", "\t", "\n"}))
 			x.feats["attr-literal-ws"]++
 		case 3:
-			sb.WriteString(x.pick("avref", []string{"&lt;", "&amp;", "&gt;", "&quot;", "&apos;", "&#10;", "&#9;", "&#13;", "&#xA;", "&#x9;", "&#x20;", "&#34;", "&#39;", "&#x41;", "&#233;"}))
+			sb.WriteString(x.pick("avref", []string{"&lt;", "&amp;", "&gt;", "&quot;", "&apos;", "&#10;", "&#9;", "&#13;", "&#xA;", "&#x9;", "&#x20;", "&#34;", "&#39;", "&#x41;", "&#233;", "&#60;", "&#38;", "&#x3c;", "&#x26;", "&#62;"}))
 			x.feats["attr-ref"]++
 		case 4:
 			o := "'"
